@@ -2,7 +2,7 @@
     associative operator changes neither, because all operands have one width and the operator is a fold of a commutative,
     associative function modulo 2^w. *)
 From Coq Require Import ZArith List Bool String Lia Permutation.
-From Mx Require Import Expr ExprProofs Simp SimpProofs.
+From Mx Require Import Expr ExprProofs Simp ComposeProofs SimpProofs.
 Import ListNotations.
 Open Scope list_scope.
 Open Scope Z_scope.
@@ -26,44 +26,66 @@ Proof.
 Qed.
 
 Section Canon.
+  Variable ac : bool.
   Variable IdQ : string -> Z -> bool -> bool -> bool.
   Variable rho : string -> Z.
   Variable mu : Z -> Z.
   Variable iota : string -> list Z -> Z.
 
-  Lemma canon_cb_good x : wf false IdQ x = true -> good false IdQ rho mu iota x (canon_cb x).
+  (** the slots of a concatenation in any order *)
+  Lemma compose_perm_good l l' : wf ac IdQ (ECompose l) = true -> Permutation l l' -> good ac IdQ rho mu iota (ECompose l) (ECompose l').
   Proof.
-    intros W. destruct x as [| | |op args| | | |]; try (simpl in W; discriminate); try (apply good_refl; exact W).
+    intros W P. destruct (wf_compose_inv ac IdQ l W) as (A & Ne & Hs & Nd & (a0 & Ia0 & Z0) & Oc).
+    assert (Wc : wf ac IdQ (ECompose l') = true).
+    { apply wf_compose_intro; try assumption.
+      - intros E. subst l'. apply Permutation_sym, Permutation_nil in P. contradiction.
+      - intros s Is. apply Hs. apply (Permutation_in _ (Permutation_sym P)). exact Is.
+      - apply (Permutation_NoDup (Permutation_map slot_lo P)). exact Nd.
+      - exists a0. split; [apply (Permutation_in _ P); exact Ia0 | exact Z0].
+      - intros i. rewrite <- (occ_perm _ _ i P). apply Oc. }
+    split; [exact Wc|]. split.
+    - rewrite (proj1 (wf_compose_size ac IdQ _ Wc)), (proj1 (wf_compose_size ac IdQ _ W)). apply Z.le_antisymm.
+      + unfold maxhi at 1. destruct (fold_max_in l' 0) as [Q|(s & Is & Q)]; [rewrite Q; destruct (wf_compose_size ac IdQ _ W) as (_ & Pn & _); lia|]. rewrite Q.
+        apply (proj2 (fold_max_ge l 0)). apply (Permutation_in _ (Permutation_sym P)). exact Is.
+      + unfold maxhi at 1. destruct (fold_max_in l 0) as [Q|(s & Is & Q)]; [rewrite Q; destruct (wf_compose_size ac IdQ _ Wc) as (_ & Pn & _); lia|]. rewrite Q.
+        apply (proj2 (fold_max_ge l' 0)). apply (Permutation_in _ P). exact Is.
+    - rewrite !eval_compose_V. symmetry. apply V_perm. exact P.
+  Qed.
+
+  Lemma canon_cb_good x : wf ac IdQ x = true -> good ac IdQ rho mu iota x (canon_cb x).
+  Proof.
+    intros W. destruct x as [| | |op args| | |slots|]; try (simpl in W; discriminate); try (apply good_refl; exact W).
+    2:{ unfold canon_cb. apply compose_perm_good; [exact W|]. apply Permutation_sym. apply (sort_by_perm key_slot slots). }
     unfold canon_cb. destruct (is_assoc op) eqn:A; [|apply good_refl; exact W].
     assert (NS : is_shift op = false) by (unfold is_assoc in A; unfold is_shift; destruct (opk_of op); try discriminate; reflexivity).
-    destruct (wf_op_inv false IdQ _ _ W NS) as (Wl & a & r & -> & _ & Sl).
-    assert (Hn : 0 < size a) by (inversion Wl; subst; apply (wf_range false IdQ rho mu iota); assumption).
+    destruct (wf_op_inv ac IdQ _ _ W NS) as (Wl & a & r & -> & _ & Sl).
+    assert (Hn : 0 < size a) by (inversion Wl; subst; apply (wf_range ac IdQ rho mu iota); assumption).
     assert (K : exists k, aop_of op = Some k) by (unfold is_assoc in A; unfold aop_of; destruct (opk_of op); try discriminate; eauto).
     destruct K as [k K].
     pose proof (sort_by_perm key_expr (a :: r)) as Pm. fold (canonize_expr_list (a :: r)) in Pm.
     assert (NE : a :: r <> []) by discriminate.
-    assert (G : wf false IdQ (EOp op (canonize_expr_list (a :: r))) = true /\ size (EOp op (canonize_expr_list (a :: r))) = size a /\
+    assert (G : wf ac IdQ (EOp op (canonize_expr_list (a :: r))) = true /\ size (EOp op (canonize_expr_list (a :: r))) = size a /\
                 eval rho mu iota (EOp op (canonize_expr_list (a :: r))) = eval rho mu iota (EOp op (a :: r))).
     2:{ destruct G as (G1 & G2 & G3). split; [exact G1|]. split; [rewrite G2; symmetry; apply (size_node op); lia | exact G3]. }
-    apply (node_of_list false IdQ rho mu iota op k (size a) (a :: r) (canonize_expr_list (a :: r)) K Hn Wl Sl NE).
+    apply (node_of_list ac IdQ rho mu iota op k (size a) (a :: r) (canonize_expr_list (a :: r)) K Hn Wl Sl NE).
     - eapply all_perm; [apply Permutation_sym; exact Pm | exact Wl].
     - eapply all_perm; [apply Permutation_sym; exact Pm | exact Sl].
     - intros E. rewrite E in Pm. apply Permutation_nil in Pm. discriminate.
     - rewrite (afold_perm k _ _ (Permutation_map (eval rho mu iota) Pm)). apply cong_refl.
   Qed.
 
-  Theorem canonize_good e : wf false IdQ e = true -> good false IdQ rho mu iota e (canonize e).
+  Theorem canonize_good e : wf ac IdQ e = true -> good ac IdQ rho mu iota e (canonize e).
   Proof.
     intros W. unfold canonize.
-    apply (visit_good false IdQ rho mu iota (fun x => Ok (canon_cb x))); [| |exact W | apply visit_as_visitM].
+    apply (visit_good ac IdQ rho mu iota (fun x => Ok (canon_cb x))); [| |exact W | apply visit_as_visitM].
     - intros x x' Wx Hx. inversion Hx; subst. apply canon_cb_good. exact Wx.
     - intros sg w v x' Hx. inversion Hx; subst. reflexivity.
   Qed.
 End Canon.
 
-Theorem canonize_preserves : forall (Q : string -> Z -> bool -> bool -> bool) e, wf false Q e = true ->
-  wf false Q (canonize e) = true /\ size (canonize e) = size e /\ forall rho mu iota, eval rho mu iota (canonize e) = eval rho mu iota e.
+Theorem canonize_preserves : forall (ac : bool) (Q : string -> Z -> bool -> bool -> bool) e, wf ac Q e = true ->
+  wf ac Q (canonize e) = true /\ size (canonize e) = size e /\ forall rho mu iota, eval rho mu iota (canonize e) = eval rho mu iota e.
 Proof.
-  intros Q e W. destruct (canonize_good Q (fun _ => 0) (fun _ => 0) (fun _ _ => 0) e W) as (A & B & _).
-  split; [exact A|]. split; [exact B|]. intros rho mu iota. apply (canonize_good Q rho mu iota e W).
+  intros ac Q e W. destruct (canonize_good ac Q (fun _ => 0) (fun _ => 0) (fun _ _ => 0) e W) as (A & B & _).
+  split; [exact A|]. split; [exact B|]. intros rho mu iota. apply (canonize_good ac Q rho mu iota e W).
 Qed.
